@@ -315,7 +315,7 @@ static void mon_health_tx(sim_tx_t *tx, const sdns_query_t *q, const uint8_t *ms
       const ares_query_t *lq = app_channel ? ares_htable_szvp_get_direct(app_channel->queries_by_qid, tx->qid) : NULL;
       if (prev < 0 && lq != NULL && lq->try_count == 0 && app_cfg.failover_set && app_cfg.failover_chance == 1 && cur_cnt[tx->srv] == 0 &&
           hl_nexp < HL_MAXEXP) {
-        int64_t  delay_us = (int64_t)app_cfg.failover_delay_ms * 1000;
+        int64_t  delay_us = app_cfg.failover_delay_ms < 0 ? INT64_MAX / 4 : (int64_t)app_cfg.failover_delay_ms * 1000;
         unsigned mask     = 0;
         for (i = 0; i < app_cfg.nsrv_cfg; i++) {
           int sv = app_cfg.srv_cfg[i], k, unresolved = 0;
@@ -379,7 +379,8 @@ static void mon_health_tx(sim_tx_t *tx, const sdns_query_t *q, const uint8_t *ms
     vh_violation("health:probe-with-chance-0", "probe sent to failed server %d although the retry chance is 0", tx->srv);
   }
   {
-    int64_t delay_us = (int64_t)(app_cfg.failover_set ? app_cfg.failover_delay_ms : 5000) * 1000;
+    int64_t delay_us = (app_cfg.failover_set && app_cfg.failover_delay_ms < 0) ? INT64_MAX / 4
+                                                                               : (int64_t)(app_cfg.failover_set ? app_cfg.failover_delay_ms : 5000) * 1000;
     if (decision_time < cur_fail_us[tx->srv] + delay_us) {
       vh_violation("health:probe-before-retry-delay", "probe sent to server %d %lld ms after its last failure, retry delay is %lld ms", tx->srv,
                    (long long)((decision_time - cur_fail_us[tx->srv]) / 1000), (long long)(delay_us / 1000));
@@ -651,6 +652,9 @@ static void gen_failover(vh_rng_t *rng)
     app_cfg.failover_set      = 1;
     app_cfg.failover_chance   = vh_chance(rng, 1, 5) ? 0 : vh_range(rng, 1, 3);
     app_cfg.failover_delay_ms = vh_chance(rng, 1, 2) ? 0 : vh_range(rng, 100, 3000);
+    if (vh_chance(rng, 1, 12)) {
+      app_cfg.failover_delay_ms = -1 - (int)vh_below(rng, 2); /* the largest values the option's type holds */
+    }
   }
   /* socket calls that fail on the spot: the attempt is over at once and the next one is chosen in the same call
    * (also for a re-send that was directed at one server: EDNS downgrade after FORMERR, TCP after truncation) */
